@@ -176,28 +176,40 @@ def encV (d : Defs) : Nat → Ty → Val → Res (List Event)
         | .panic p => .panic p
     | _, _ => .panic .typeAssert      -- ill-typed value: not expressible in the emitted Go types
 
+/-- Skip `k` consecutive values of wire type `tt` (`sk` = the skipper for one value). -/
+def skipN (sk : Nat → List Event → Res (List Event)) : Nat → Nat → List Event → Res (List Event)
+  | 0, _, es => .ok es
+  | k + 1, tt, es => match sk tt es with
+    | .ok es' => skipN sk k tt es'
+    | .err e => .err e
+    | .panic p => .panic p
+
+def skipKV (sk : Nat → List Event → Res (List Event)) (kt vt : Nat) : Nat → List Event → Res (List Event)
+  | 0, es => .ok es
+  | k + 1, es => match sk kt es with
+    | .ok es1 => match sk vt es1 with
+      | .ok es2 => skipKV sk kt vt k es2
+      | .err e => .err e
+      | .panic p => .panic p
+    | .err e => .err e
+    | .panic p => .panic p
+
+/-- Skip the fields of a struct up to and including FieldStop, StructEnd. -/
+def skipFields (sk : Nat → List Event → Res (List Event)) : Nat → List Event → Res (List Event)
+  | 0, _ => .err .invalidData
+  | _ + 1, .fs :: .se :: r => .ok r
+  | f + 1, .fb _ ft _ :: r =>
+    match sk ft r with
+    | .ok (.fe :: r') => skipFields sk f r'
+    | .ok _ => .err .invalidData
+    | .err e => .err e
+    | .panic p => .panic p
+  | _ + 1, _ => .err .invalidData
+
 /-- `thrift.SkipDefaultDepth`: consume one value of wire type `tt`. -/
 def skip : Nat → Nat → List Event → Res (List Event)
   | 0, _, _ => .panic .fuel
   | n + 1, tt, es =>
-    let rec skipN (k : Nat) (tt : Nat) (es : List Event) : Res (List Event) :=
-      match k with
-      | 0 => .ok es
-      | k + 1 => match skip n tt es with
-        | .ok es' => skipN k tt es'
-        | .err e => .err e
-        | .panic p => .panic p
-    let rec skipFields (fuel : Nat) (es : List Event) : Res (List Event) :=
-      match fuel, es with
-      | 0, _ => .err .invalidData
-      | _ + 1, .fs :: .se :: r => .ok r
-      | f + 1, .fb _ ft _ :: r =>
-        match skip n ft r with
-        | .ok (.fe :: r') => skipFields f r'
-        | .ok _ => .err .invalidData
-        | .err e => .err e
-        | .panic p => .panic p
-      | _ + 1, _ => .err .invalidData
     match tt, es with
     | 2, .bool _ :: r => .ok r
     | 3, .byte _ :: r => .ok r
@@ -206,29 +218,19 @@ def skip : Nat → Nat → List Event → Res (List Event)
     | 10, .i64 _ :: r => .ok r
     | 4, .dbl _ :: r => .ok r
     | 11, .str _ _ :: r => .ok r
-    | 12, .sb _ :: r => skipFields r.length r
-    | 15, .lb et k :: r => match skipN k et r with
+    | 12, .sb _ :: r => skipFields (skip n) r.length r
+    | 15, .lb et k :: r => match skipN (skip n) k et r with
       | .ok (.le :: r') => .ok r'
       | .ok _ => .err .invalidData
       | .err e => .err e
       | .panic p => .panic p
-    | 14, .tb et k :: r => match skipN k et r with
+    | 14, .tb et k :: r => match skipN (skip n) k et r with
       | .ok (.te :: r') => .ok r'
       | .ok _ => .err .invalidData
       | .err e => .err e
       | .panic p => .panic p
     | 13, .mb kt vt k :: r =>
-      let rec skipKV (k : Nat) (es : List Event) : Res (List Event) :=
-        match k with
-        | 0 => .ok es
-        | k + 1 => match skip n kt es with
-          | .ok es1 => match skip n vt es1 with
-            | .ok es2 => skipKV k es2
-            | .err e => .err e
-            | .panic p => .panic p
-          | .err e => .err e
-          | .panic p => .panic p
-      match skipKV k r with
+      match skipKV (skip n) kt vt k r with
       | .ok (.me :: r') => .ok r'
       | .ok _ => .err .invalidData
       | .err e => .err e
